@@ -279,7 +279,7 @@ func (s *subscriberServer) UpdateSubscription(
 					subUpdate.ClearMessageFilter()
 				} else {
 					// validate the filter
-					if _, err := filter.Parser.ParseString(sub.Name, req.Subscription.Filter); err != nil {
+					if _, err := filter.Parse(sub.Name, req.Subscription.Filter); err != nil {
 						return status.Errorf(codes.InvalidArgument, "Invalid filter: %v", err)
 					}
 					subUpdate.SetMessageFilter(req.Subscription.Filter)
